@@ -1,3 +1,4 @@
+import itertools
 import random
 import typing
 from ast import *
@@ -5,8 +6,13 @@ from ast import *
 from oneliner.config import Configs
 
 
+_unique_id_counter = itertools.count()
+
+
 def unique_id() -> str:
-    return "".join(random.choices("abcdefghijklmnopqrstuvwxyz", k=10))
+    # the counter makes the ids distinct whatever the random generator returns
+    random_part = "".join(random.choices("abcdefghijklmnopqrstuvwxyz", k=10))
+    return f"{random_part}{next(_unique_id_counter)}"
 
 
 def convert_slice(_slice: Slice) -> Call:
